@@ -361,6 +361,9 @@ func Check(prop, tier string, casesOverride int, jobs int) int {
 			}
 			samples = append(samples, s)
 		}
+		if len(cl.Violations) > 0 && cl.Replay == "" {
+			cl.Replay = writeCaseReplay(replayDir, prop, tier, cl)
+		}
 		for _, v := range cl.Violations {
 			if v.Prop != prop {
 				otherProps[v.Prop]++
@@ -440,6 +443,31 @@ func Check(prop, tier string, casesOverride int, jobs int) int {
 var Replayers = map[string]func(path string) int{}
 
 func Replay(prop, path string) int {
+	// a case replay (written by the driver for engines that re-run from the seed)
+	if b, err := os.ReadFile(path); err == nil {
+		var cr caseReplay
+		if json.Unmarshal(b, &cr) == nil && cr.Engine == "seeded-case" {
+			spec := Specs[cr.Property]
+			if spec == nil {
+				fmt.Println("unknown property", cr.Property)
+				return 2
+			}
+			res := spec.Run(cr.Property, cr.CaseSeed, cr.Idx, cr.Tier, "", nil)
+			hit := 0
+			for _, v := range res.Violations {
+				fmt.Printf("  >>> %s: %s\n", v.Signature, v.Text)
+				if v.Prop == cr.Property {
+					hit++
+				}
+			}
+			fmt.Printf("replay done: %d violations\n", hit)
+			if hit > 0 {
+				fmt.Printf("VIOLATION property=%s replay=%s\n", cr.Property, path)
+				return 1
+			}
+			return 0
+		}
+	}
 	if r := Replayers[prop]; r != nil {
 		return r(path)
 	}
@@ -468,4 +496,31 @@ func globMatch(pat, s string) bool {
 		return false
 	}
 	return globMatch(pat[1:], s[1:])
+}
+
+
+type caseReplay struct {
+	Property   string          `json:"property"`
+	Engine     string          `json:"engine"`
+	CaseSeed   uint64          `json:"case_seed"`
+	Idx        int             `json:"idx"`
+	Tier       string          `json:"tier"`
+	Violations []det.Violation `json:"violations"`
+	Sample     *det.Sample     `json:"sample,omitempty"`
+}
+
+func writeCaseReplay(dir, prop, tier string, cl caseLine) string {
+	cr := caseReplay{Property: prop, Engine: "seeded-case", CaseSeed: cl.Seed, Idx: cl.Idx, Tier: tier, Violations: cl.Violations, Sample: cl.Sample}
+	if len(cr.Violations) > 20 {
+		cr.Violations = cr.Violations[:20]
+	}
+	b, err := json.MarshalIndent(cr, "", " ")
+	if err != nil {
+		return ""
+	}
+	path := filepath.Join(dir, fmt.Sprintf("%s-%x.json", prop, cl.Seed))
+	if os.WriteFile(path, b, 0o644) != nil {
+		return ""
+	}
+	return path
 }
